@@ -216,6 +216,11 @@ def run_one(mod, case, ctx):
     ctx._cur_nontrivial = False
     from petlmon import util as _util
     twice0 = _util.TWICE[0]
+    # one case in four makes all its calls to petl's functions in keyword form (every argument after the first bound by name)
+    from petlmon import probes as _probes
+    kwform = int(_util.fp(case)[:2], 16) % 4 == 0
+    _probes.KEYWORD_FORM[0] = kwform
+    kw0 = _probes.KEYWORD_FORM[1]
     signal.alarm(CASE_WATCHDOG_S)
     try:
         with warnings.catch_warnings():
@@ -237,11 +242,19 @@ def run_one(mod, case, ctx):
         tempfile.tempdir = saved_tmp
         if _util.TWICE[0] != twice0:
             ctx.seen('views-read-twice', _util.TWICE[0] - twice0)
+        _probes.KEYWORD_FORM[0] = False
+        if _probes.KEYWORD_FORM[1] != kw0:
+            ctx.seen('petl-calls-made-in-keyword-form', _probes.KEYWORD_FORM[1] - kw0)
     if res is None:
         return []
     if isinstance(res, dict):
-        return [res]
-    return list(res)
+        res = [res]
+    res = list(res)
+    if kwform:
+        for r_ in res:
+            if isinstance(r_, dict):
+                r_.setdefault('call-form', 'arguments after the first bound by keyword')
+    return res
 
 
 def run_shard(prop, tier, seed, shard, nshards, only_index=None):
